@@ -643,9 +643,10 @@ func (c *Client) Do(ctx context.Context, q Query) (err error) {
 				otelch.QueryID(q.QueryID),
 			),
 		)
-		m := new(queryMetrics)
-		ctx = context.WithValue(newCtx, ctxQueryKey{}, m)
+		total := new(queryMetricsTotal)
+		ctx = context.WithValue(newCtx, ctxQueryKey{}, total)
 		defer func() {
+			m := total.get()
 			span.SetAttributes(
 				otelch.BlocksSent(m.BlocksSent),
 				otelch.BlocksReceived(m.BlocksReceived),
